@@ -251,6 +251,30 @@ func gen(t *rapid.T) Case {
 			}
 			c.Lines = rapid.Permutation(members).Draw(t, "starorder")
 		}
+		if len(c.Lines) == 1 && rapid.IntRange(0, 11).Draw(t, "rectloop") == 4 {
+			// a closed loop of straight axis-parallel members: the sides of a rectangle (the long ones sometimes cut in
+			// two), in any order and direction, around the middle of P - members whose boxes have no area and only
+			// touch each other
+			hw, hh := A.Rin*rapid.Float64Range(0.1, 1.4).Draw(t, "rlw"), A.Rin*rapid.Float64Range(0.1, 1.4).Draw(t, "rlh")
+			cx, cy := A.Cx+A.Rin*rapid.Float64Range(-0.3, 0.3).Draw(t, "rlx"), A.Cy+A.Rin*rapid.Float64Range(-0.3, 0.3).Draw(t, "rly")
+			p := []vkit.P2{vkit.MkP(cx-hw, cy-hh), vkit.MkP(cx+hw, cy-hh), vkit.MkP(cx+hw, cy+hh), vkit.MkP(cx-hw, cy+hh)}
+			var members [][]vkit.P2
+			for i := 0; i < 4; i++ {
+				a, b := p[i], p[(i+1)%4]
+				if rapid.IntRange(0, 3).Draw(t, "rlcut") == 0 {
+					m := vkit.MkP((float64(a[0])+float64(b[0]))/2, (float64(a[1])+float64(b[1]))/2)
+					members = append(members, []vkit.P2{a, m}, []vkit.P2{m, b})
+				} else {
+					members = append(members, []vkit.P2{a, b})
+				}
+			}
+			for i := range members {
+				if rapid.Bool().Draw(t, "rlrev") {
+					members[i][0], members[i][len(members[i])-1] = members[i][len(members[i])-1], members[i][0]
+				}
+			}
+			c.Lines = rapid.Permutation(members).Draw(t, "rlorder")
+		}
 		if chained && len(c.Lines) >= 2 && rapid.Bool().Draw(t, "closeloop") {
 			// one more member from the end of the chain back to its start: the members together form a closed loop
 			c.Lines = append(c.Lines, []vkit.P2{last, first})
@@ -633,7 +657,8 @@ func TestProp(t *testing.T) {
 			"(own even-odd test) are summed -> expected length; Clip's total Length must match (1e-9 relative to length+scale), every result vertex must be within 1e-9*scale of " +
 			"the input line and inside or on P, and the result is empty exactly when the expected length is 0. Non-trivial = the line crosses the boundary of P at least twice. Distinct by case hash." +
 			" Round 9: block-exit lines with long tails (K or 2K more vertices outside after the exit at vertex K)." +
-			" Round 10: junctions (1 single-line case in 8: the line cut at an inner vertex plus one or two spurs - three or four members ending in one point, shuffled and reversed).",
+			" Round 10: junctions (1 single-line case in 8: the line cut at an inner vertex plus one or two spurs - three or four members ending in one point, shuffled and reversed)." +
+			" Round 12: closed loops of axis-parallel members (1 single-line case in 12: the sides of a rectangle around the middle of P, some cut in two, shuffled and reversed).",
 		Assumptions: []string{"general position enforced by filter", "oracle in vkit (SegIntersection, PIP) trusted"},
 		Gen:         gen,
 		Run:         run,
